@@ -157,6 +157,8 @@ def gen_table(rng, n_enums, big=False):
         spec["titles"] = {"name": rng.choice(["Full\nName", "N", ["Full", "Name"], ["Nm"]])}
     if rng.random() < 0.2:
         spec["limits"] = [rng.randint(0, 2), rng.randint(0, 2)]
+        if rng.random() < 0.25:
+            spec["limits"][rng.randrange(2)] = None       # one side left open
     if rng.random() < 0.3 and recs:
         spec["nt"] = True
     if rng.random() < 0.12:
